@@ -1,6 +1,8 @@
 HOOK_COMMITS = []
 NOTES = "Model checking = bounded exhaustive exploration of the real code against reference models; see DESIGN.md. Exit 0 held / 1 violation / >=2 machinery failure."
 ENGINES = [
+    {"name": "vc_rules", "path": "harness/src/engines/vc_rules.rs", "serves_properties": ["C04"],
+     "kind_free_text": "stateless exhaustive enumeration of (expression x line) per rule kind vs reference matchers"},
     {"name": "vc_diff", "path": "harness/src/engines/vc_diff.rs", "serves_properties": ["C01", "C02", "C03"],
      "kind_free_text": "stateless exhaustive enumeration of (match matrix x quantifier vector) through DiffTool::diff / TestCase::validate, oracle = position NFA"},
 ]
@@ -19,5 +21,10 @@ CHECKS = [
      "text": "On every case of the exhaustive space that satisfies the one-line-lookahead determinism condition (computed on the reference NFA) the implementation's verdict must equal NFA acceptance.",
      "note": "bounded in number of expectations/lines"},
 ]
+CHECKS.append(
+    {"id": "C04", "engine": "vc_rules", "category": "exploration", "design_ref": "DESIGN.md §2 C04",
+     "technique": "bounded exhaustive enumeration of expressions (strings / regex ASTs) x candidate lines per rule kind against independent reference matchers",
+     "text": "Per rule kind every expression up to the stated size (regex: every AST, so top-level alternation and nesting occur) is parsed by the real ExpectationMaker (default and cram-compat registries) and evaluated on every candidate line of its family; the verdict must equal an independent reference matcher (byte equality, one-pass escape decoder, textbook glob, backtracking whole-line regex matcher).",
+     "note": "bounded expression/line length over focused alphabets; third-party regex/wildmatch syntax outside the alphabets not explored"})
 claimed = {c["id"] for c in CHECKS}
 NOT_APPLICABLE = [{"property_id": p, "reason": "check not built yet (work in progress; planned in DESIGN.md)"} for p in ALL if p not in claimed]
